@@ -363,7 +363,7 @@ class BehavioralRTLIRToVVisitorL1( bir.BehavioralRTLIRNodeVisitor ):
       if not _one_bit:
         if '+:' in value:
           # a[i +: 2] has no [msb:lsb] form to take the sign bit from
-          return f"{target_nbits}'($signed({value}))"
+          return f"$unsigned({target_nbits}'($signed({value})))"
         l, col, r = value.rfind('['), value.rfind(':'), value.rfind(']')
         if -1 < l < col < r:
           _value = value[:col] + ']'
@@ -374,12 +374,12 @@ class BehavioralRTLIRToVVisitorL1( bir.BehavioralRTLIRNodeVisitor ):
       # array field of a struct) selects an element
       _base_type = node.value.value.Type
       if isinstance( _base_type, rt.Signal ) and _base_type.is_packed_indexable():
-        return f"{target_nbits}'($signed({value}))"
+        return f"$unsigned({target_nbits}'($signed({value})))"
       _one_bit = not isinstance( _base_type, rt.Array )
     elif not isinstance( node.value, ( bir.Attribute, bir.LoopVar, bir.TmpVar ) ):
       # The sign bit of a constant or of a compound expression cannot be
       # selected with [msb]; let a signed cast do the extension instead
-      return f"{target_nbits}'($signed({value}))"
+      return f"$unsigned({target_nbits}'($signed({value})))"
     else:
       _one_bit = False
 
